@@ -138,6 +138,8 @@ Proof. apply flag_body_ok. reflexivity. Qed.
 
 Lemma ctl_reset_device_eq s q e f : run_handler ctl_reset_device s q e f = h_reset_device s.
 Proof.
+  assert (ctl_reset_device
+          = [OForRings [OSetEnabled BFalse; OUpdateReg]; OForgetFeatures; OClearAckedFeatures; OBackendReset; ORetOk]) as _ by reflexivity.
   unfold ctl_reset_device, h_reset_device, run_handler, run_handler_num. cbn [run_list].
   cbn [run_op c_res c_s].
   match goal with |- context [for_rings ?B ?n 0 ?E] =>
@@ -191,6 +193,11 @@ Ltac step1 := rewrite run_list_cons;
 
 Lemma ctl_set_features_eq s q e f v : run_handler_num ctl_set_features s q e f v = h_set_features s v.
 Proof.
+  (* fail at once, not after a long symbolic evaluation, when the regenerated program is a different one *)
+  assert (ctl_set_features
+          = [OCheckOffered; OSetAckedFeatures; OMarkFeaturesAcked;
+             OIf CNoProtocolFeatures [OForRings [OSetEnabled BTrue; OUpdateReg]] [];
+             OLetEventIdx; OSetEventIdxAll; OBackendEventIdx; OBackendAckedFeatures; ORetOk]) as _ by reflexivity.
   unfold ctl_set_features, h_set_features, run_handler_num.
   step1.
   destruct (N.land v (lnot 64 (d_features s)) =? 0) eqn:E; cbn [negb].
